@@ -24,6 +24,7 @@ type Program struct {
 	fnFile   map[*ssa.Function]string
 	sizes    types.Sizes
 	initable map[string]bool
+	Initial  []*packages.Package
 }
 
 // BuildOverlay maps every file under harnessDir/overlay/<rel> to repoDir/<rel>.
@@ -85,7 +86,7 @@ func Load(repoDir, harnessDir string) (*Program, error) {
 	}
 	prog, _ := ssautil.AllPackages(initial, ssa.InstantiateGenerics)
 	prog.Build()
-	p := &Program{Prog: prog, Pkgs: map[string]*ssa.Package{}, RepoDir: repoDir, Overlay: ov,
+	p := &Program{Prog: prog, Pkgs: map[string]*ssa.Package{}, RepoDir: repoDir, Overlay: ov, Initial: initial,
 		fnFile: map[*ssa.Function]string{}, sizes: types.SizesFor("gc", "amd64")}
 	for _, sp := range prog.AllPackages() {
 		p.Pkgs[sp.Pkg.Path()] = sp
